@@ -525,6 +525,20 @@ func (c *sseClientConn) Write(ctx context.Context, msg jsonrpc.Message) error {
 	if c.isDone() {
 		return io.EOF
 	}
+	// The POST ends with the connection as well as with ctx: a request the
+	// server has not answered when the event stream ends must not keep its
+	// caller blocked after the session has terminated.
+	ctx, cancel := context.WithCancel(ctx)
+	defer cancel()
+	stop := make(chan struct{})
+	defer close(stop)
+	go func() {
+		select {
+		case <-c.done:
+			cancel()
+		case <-stop:
+		}
+	}()
 	req, err := http.NewRequestWithContext(ctx, "POST", c.msgEndpoint.String(), bytes.NewReader(data))
 	if err != nil {
 		return err
@@ -532,6 +546,9 @@ func (c *sseClientConn) Write(ctx context.Context, msg jsonrpc.Message) error {
 	req.Header.Set("Content-Type", "application/json")
 	resp, err := c.client.Do(req)
 	if err != nil {
+		if c.isDone() {
+			return io.EOF
+		}
 		return err
 	}
 	defer resp.Body.Close()
